@@ -220,10 +220,18 @@ func checkDeferredOpt(rc *core.RunCtx, cfg Cfg, out *Out, orderMatters bool) (*d
 		// group was delivered for it: a client cannot find the path
 		info.OrderProblem = fmt.Sprintf("payload %d (path %q label %q) was delivered although its object was removed by null propagation and is in no payload", pending[0].i, pending[0].p.Path, pending[0].p.Label)
 		info.OrderSite = "group-for-undelivered-object"
+		// groups that never became applicable and came back failed: `failed` only knows the
+		// applied ones
+		pendFailed := map[string]bool{}
 		for _, pd := range pending {
-			// (only decidable when the group itself came back with data: a group that failed
-			// may be the very reason the reference sees the object as invalid)
-			if ref.InvalidObjects[pd.p.Path] && !failed[pd.p.Path] && pd.p.Data != nil && !pd.p.Data.IsNull() {
+			if pd.p.Data == nil || pd.p.Data.IsNull() {
+				pendFailed[pd.p.Path] = true
+			}
+		}
+		for _, pd := range pending {
+			// (only decidable when no group of that object failed: a group that failed may be
+			// the very reason the reference sees the object as invalid)
+			if ref.InvalidObjects[pd.p.Path] && !failed[pd.p.Path] && !pendFailed[pd.p.Path] && pd.p.Data != nil && !pd.p.Data.IsNull() {
 				// the object is invalid because of one of its own non-deferred fields: its
 				// groups must never have been started
 				info.OrderProblem = fmt.Sprintf("payload %d (path %q label %q) belongs to an object that is itself invalid (one of its own non-deferred non-null fields failed), yet its deferred group was started and delivered", pd.i, pd.p.Path, pd.p.Label)
